@@ -95,16 +95,28 @@ def check(case, ctx):
     if case.get("noraw"):
         from bibtexparser import model as M
         ctx.mon("library_built_in_code")
-        a, b = ((M.Entry("article", "k", [M.Field("t", "{1}")]), M.Entry("book", "k", [M.Field("u", "{2}")])) if case["noraw"] == "entry"
+        a, b = ((M.Entry("article", "k", [M.Field("t", "{1}")]), M.Entry("book", "k", [M.Field("u", "{2}"), M.Field("abcdefghijkl", "{3}")])) if case["noraw"] == "entry"
                 else (M.String("s", "{1}"), M.String("s", "{2}")))
         lib = Library([a, b])
         st, text = sp.escape(lambda: writer.write(lib, build.fmt(fs)))
         ctx.ran()
         if st == "raise":
             return [Violation("raised", f"C06:raise:{text.split(':')[0]}:failed-block-without-raw", dict(error=text, case=case))]
-        first = writer.write(Library([a]), build.fmt(fs))
-        if not text.startswith(first.rstrip("\n")):
-            return [Violation("content", "C06:library-built-in-code:first-block-not-written", dict(text=text, case=case))]
+        if case["noraw"] == "entry":
+            # every field line (of the entry and of the entry written in place of the wrapper) starts its value in the column
+            # the format asks for; for 'auto' that is one common, minimal column
+            cols = set()
+            for line in text.split("\n"):
+                for key in ("t", "u", "abcdefghijkl"):
+                    if line.startswith(indent + key + " ") and " = {" in line:
+                        cols.add(line.index(" = {") + 3 - len(indent))
+            want = {len("abcdefghijkl") + 3} if col == "auto" else None
+            if want is not None and cols != want:
+                return [Violation("layout", "C06:library-built-in-code:auto-column-not-common", dict(text=text, cols=sorted(cols), case=case))]
+            if "{2}" not in text or "{3}" not in text:
+                return [Violation("content", "C06:library-built-in-code:wrapped-block-not-written", dict(text=text, case=case))]
+        elif "{2}" not in text:
+            return [Violation("content", "C06:library-built-in-code:wrapped-block-not-written", dict(text=text, case=case))]
         return []
     if ctx.cases % 2:
         F = build.fmt(fs)
